@@ -294,4 +294,16 @@ def Iter.wf (delay : Int) (it : Iter) : Prop :=
 /-- `b.follows ttl a`: `b` is the iteration that follows `a` -/
 def Iter.follows (b : Iter) (ttl : Int) (a : Iter) : Prop := b.fire = a.nextFire ttl
 
+/-! One iteration of `pushPingMetrics` uses the same record: the timer fires at
+`fire`, `sendPingMetric` stamps `Expire = stamp + 2 * interval`, the monitor sees
+`PublishMetric` at `pub`, and the timer is re-armed at `reset` with `interval`
+(`interval / 2` after a publish error). -/
+
+def Iter.pingExpire (interval : Int) (it : Iter) : Int := it.stamp + 2 * interval
+
+def Iter.pingNextFire (interval : Int) (it : Iter) : Int :=
+  it.reset + (if it.err then interval / 2 else interval)
+
+def Iter.pingFollows (b : Iter) (interval : Int) (a : Iter) : Prop := b.fire = a.pingNextFire interval
+
 end CV.C09
